@@ -121,6 +121,7 @@ def run(tier, replay=None):
     # 3b. type depths around the 16-bit boundaries, and include graphs (one process each)
     groups = [("type depth %d" % n, lexcases.typedepth_cases(n)) for n in (3, 300, 32766, 32767, 32768, 65535, 65536, 70000)]
     groups += [("include graph " + c["id"], [c]) for c in lexcases.graph_cases()]
+    groups += [("pipelines calling each other " + c["id"], [c]) for c in lexcases.recursion_cases()]
     ngr = 0
     for label, cs in groups:
         lexcases.write(cs, os.path.join(wd, "g.ndjson"))
